@@ -67,7 +67,6 @@ Proof.
   rewrite seqr_assoc. unfold bindr at 2. apply seqr_ext. intros z. symmetry. apply sem_and.
 Qed.
 
-Definition isif (b:body) := match b with BIf _ _ => true | _ => false end.
 
 Lemma sem_or_plain a b s : isif a = false -> sem (BOr a b) s = por (sem a s) (sem b s).
 Proof. destruct a; simpl; intros H; try discriminate; reflexivity. Qed.
